@@ -75,7 +75,10 @@ CHECKS["C06"] = dict(
          "the string or *result.  decode(encode(x)) == x and 'output is a documented number format' for every x of every type in "
          "base 2 and 16 (with/without grouping) and in base 10 for 8/16-bit types.  Plus the Skip/Emit clause, decided in the "
          "compiler (E1, finite domain): the text_output attribute value is a symbolic choice flowing through the real front-end "
-         "passes and header generator, for seven kinds of field; the generated text-output clause is present iff not Skip.",
+         "passes and header generator, for seven kinds of field; the generated text-output clause is present iff not Skip.  Emission "
+         "order: for every permutation of a structure's fields_in_dependency_order (720 paths) the generated method writes the fields in "
+         "exactly that order (that the order respects dependencies is C15); a mismatch is confirmed by a native WriteToString/"
+         "UpdateFromText round trip of a structure declared in reverse dependency order.",
     note="NOT claimed: the rest of the structure level of C06 (UpdateFromText(WriteToString(view)) reads back equal, emission order, "
          "comments/multiline options) -- std::ostringstream/std::string growth/virtual dispatch are not encodable by ll2smt. "
          "Outside the bounds: decimal texts with more than 4 (quick) / 6 (thorough) free digits after a concrete head, base-10 "
